@@ -354,6 +354,15 @@ def diff_views(v1, v2, ir, tol=0.0, compare_n=False, fields=None):
                 kx, ky = _kind(x), _kind(y)
                 if kx == ky:
                     sig = "param-value-changed:" + kx
+                    if kx == "num":
+                        dx = complex(y[1] - x[1], y[2] - x[2])
+                        k12 = dx.real / (math.pi / 12)
+                        if abs(x[1] + y[1]) <= 1e-9 * max(1, abs(x[1])) and abs(x[2] + y[2]) <= 1e-9 * max(1, abs(x[2])):
+                            sig += "-negated"
+                        elif dx.imag == 0 and abs(k12) > 0.5 and abs(k12 - round(k12)) < 1e-4:
+                            sig += "-shifted-by-multiple-of-pi/12"
+                        else:
+                            sig += "-other"
                     if kx.startswith("sym"):
                         try:
                             neg = sympy.srepr(-sympy.sympify(x[1]))
@@ -474,6 +483,8 @@ def runnable_gaussian(v):
         for p in c["p"]:
             if p is not None and p[0] in ("sym", "str", "other"):
                 return False
+            if p is not None and p[0] == "num" and abs(complex(p[1], p[2])) > 50:
+                return False  # squeezing / displacement of this size is numerically meaningless on the gaussian backend
     return True
 
 
@@ -1475,11 +1486,13 @@ ASSUMPTIONS = [
     "program name and Interferometer mesh / tolerance options are not part of the compared meaning; generate_code is checked on programs "
     "whose parameters are scalars or TDM loop variables, with 1e-5 relative tolerance (it snaps values to multiples of pi/12)",
 ]
-MANIFEST_TEXT = ("C14: full theorems C14_bb_roundtrip / C14_xir_roundtrip (object-level round trip returns exactly the program, under "
-                 "explicit hypotheses that exclude the recorded defects), each hypothesis shown necessary by a _refuted theorem; model "
-                 "tied by exact correspondence; text level and generate_code covered by search only")
-
-
+MANIFEST_TEXT = ("C14: Coq theorems C14_bb_roundtrip / C14_xir_roundtrip (full for the modelled object-level round trip: for every program "
+                 "satisfying the decidable hypotheses bb_prog_ok / xir_prog_ok, from(to(p)) = p exactly - commands, parameters, modes, "
+                 "dagger, select, dark_counts, target, options, TDM data); six universally quantified 'never survives' theorems and twelve "
+                 "_refuted witnesses show which hypotheses cannot be dropped for the current code (all recorded as known findings); the "
+                 "converse (hypotheses necessary for every program) is not proved.  Model tied to /repo by exact correspondence of writer "
+                 "records, reader results and exception kinds; the text layer (external blackbird / xir packages) and generate_code are "
+                 "covered by the failing-input search only")
 
 
 def _corpus_files():
@@ -1695,6 +1708,10 @@ def systematic_specs():
     A = np.ones((2, 2)) - np.eye(2)
     out.append(prog([cmd("GraphEmbed", [arr_spec(A)], [0, 1])]))
     out.append(prog([cmd("GraphEmbed", [arr_spec(A)], [0, 1], kw={"mean_photon_per_mode": 2.0})]))
+    # angles a hair below / above a multiple of pi/12 (generate_code factors out pi)
+    for k in (1, 5, 6, 12, -6, 24):
+        for eps in (-2e-7, 2e-7, 0.0):
+            out.append(prog([cmd("Sgate", [0.5, k * math.pi / 12 + eps], [0]), cmd("Rgate", [k * math.pi / 12 + eps], [1])]))
     # mode layouts
     out.append(prog([cmd("BSgate", [0.4, 0.1], [11, 3]), cmd("S2gate", [0.3, 0.2], [9, 10]), cmd("MeasureFock", [], [11, 0, 5])], n=12))
     out.append(prog([cmd("Sgate", [0.4, 0.1], [0])], n=5))
